@@ -390,6 +390,8 @@ def run_impl(sc, timeout=20, keep_objects=False):
             n = type(e).__name__
             res['err'] = n if n in EXN else 'Other:' + n
             res['errmsg'] = str(e)[:200]
+            import traceback as _tb
+            res['errwhere'] = [f.name for f in _tb.extract_tb(e.__traceback__) if 'gearpy' in f.filename][-4:]
         if res['err'] is None:
             res['rows'] = history(pt, els)
             res['locked'] = bool(solver._Solver__powertrain_is_locked)
